@@ -12,9 +12,12 @@ def load_known():
          fixed: property=<id> <commit> <what failed>
        fixed lines suppress nothing."""
     out = {}
-    if not os.path.exists(KNOWN):
-        return out
-    for line in open(KNOWN):
+    files = [KNOWN] + [f for f in os.environ.get('VERIF_KNOWN_EXTRA', '').split(':') if f]   # extra: development only
+    lines = []
+    for f in files:
+        if os.path.exists(f):
+            lines += open(f).read().splitlines()
+    for line in lines:
         line = line.strip()
         if not line.startswith('finding:'):
             continue
